@@ -49,6 +49,11 @@ class Flat:
 
 
 @dataclass(frozen=True)
+class RowStride:
+    """row index × number of columns: the first half of a row-major flat index"""
+
+
+@dataclass(frozen=True)
 class Seq:
     items: tuple  # python tuple/list of abstract values
 
@@ -202,6 +207,20 @@ class KAT:
                     pairs = [v for v in vals if isinstance(v, Pair)]
                     return pairs[0] if pairs else None
         l, r = self.ev(e.left), self.ev(e.right)
+        if op is ast.Mult:
+            for a, b in ((l, r), (r, l)):
+                if isinstance(a, Comp) and not a.freq and isinstance(b, Ext) and a.axis == ROW and b.axis == COL:
+                    return RowStride()
+                if isinstance(a, Comp) and not a.freq and isinstance(b, Ext) and a.axis == COL and b.axis == ROW:
+                    self.clash(e, f"`{unparse(e)[:70]}` multiplies a column index by the number of rows (a row-major flat index is row·ncols + col)")
+                    return None
+        if op is ast.Add and (isinstance(l, RowStride) or isinstance(r, RowStride)):
+            o = r if isinstance(l, RowStride) else l
+            if isinstance(o, Comp) and o.axis == COL:
+                return Flat()
+            if isinstance(o, Comp) and o.axis == ROW:
+                self.clash(e, f"`{unparse(e)[:70]}` adds a row index to row·ncols (the column index belongs there)")
+            return None
         if isinstance(l, Flat) and isinstance(r, Ext) and op in (ast.FloorDiv, ast.Mod):
             if r.axis != COL:
                 self.clash(e, f"`{unparse(e)[:60]}` decomposes a row-major flat index with the row extent")
